@@ -762,10 +762,10 @@ class OpGen:
             sets[idx] = (args, argspec, False)
         if idx not in sets:
             args, argspec = self._gen_argset(fdef)
-            nodup = any(
-                t.startswith(("$", "[", "{")) or t == "null" for _, t in args
-            )
-            sets[idx] = (args, argspec, nodup)
+            # (argument sets holding variables, lists, objects or null used
+            # to be single-use: the overlapping-fields rule crashed on them
+            # until fix ecc5d62)
+            sets[idx] = (args, argspec, False)
         alias = None if idx == 0 else "%s_a%d" % (fdef.name, idx)
         args, argspec, _ = sets[idx]
         return alias, args, argspec
@@ -805,8 +805,6 @@ class OpGen:
         cands = [
             f for f in outer
             if f.kind == "field" and f.sel is not None and f.name in mine
-            and not any(t.startswith(("$", "[", "{")) or t == "null"
-                        for _, t in f.args)
         ]
         if not cands:
             return None
